@@ -270,24 +270,29 @@ def close(a, b, kind, ext, ctxv):
         tol = ctxv["tol_pH"]
     elif kind == "log":
         tol = REL + 12.0 * nu + eps / 2.302585   # |H+ stoichiometry| of a reaction in the databases is at most 10-12
+        tol += ctxv.get("surf_rel", 0.0) / 2.302585
+        # log activity of a species below the molality floor: the same absolute resolution as for its molality
+        tol *= ctxv.get("log_floor", 1.0)
     elif kind == "abs":
         tol = REL
     else:
         rel = REL + 28.0 * nu + eps + ctxv.get("nu_psi", 0.0)     # d ln m = ln(10) n dpH - z F dpsi / RT
+        rel += ctxv.get("surf_rel", 0.0)
         if kind == "rel":
             tol = rel * max(abs(a), abs(b), 1e-12)
         elif kind == "alk":
             # alkalinity is a signed sum over species (OH- minus H+ plus ...): its terms set the scale
             tol = rel * max(abs(a), abs(b), 1e-3 * ctxv["mu"], ctxv["hoh"])
         elif kind == "psi":
-            tol = rel * max(abs(a), abs(b), 0.0257)
+            tol = rel * max(abs(a), abs(b), 0.0257) + 0.0257 * ctxv.get("u_psi", 0.0)
         elif kind == "sigma":
             # net surface charge density = small difference of the charged site populations near the point of zero charge
-            tol = rel * max(abs(a), abs(b), ctxv["site_sigma"])
+            tol = rel * max(abs(a), abs(b), ctxv["site_sigma"]) + ctxv.get("dsigma", 0.0)
         elif kind == "ext":
             tol = rel * max(abs(a), abs(b), ctxv["ext_floor"])
         elif kind == "cb":
             tol = rel * max(abs(a), abs(b), ctxv["ext_floor"], 1e-3 * ctxv["mu"] * ctxv["kgw"]) + ctxv["cb_noise"]
+            tol += ctxv.get("dq", 0.0)
         else:
             raise ValueError(kind)
     d = abs(a - b)
@@ -440,7 +445,10 @@ def check_case(case, ctx):
     st2 = m.get("st2")
     worst = worst_ph = 0.0
     worst_expr = ""
-    skipped_noise = 0
+    skipped_noise = la_floor = 0
+    dbm = dbparse.load(m["db"])
+    surf_z = {'MOL("%s")' % sp.name: sp.charge for sp in dbm.surface_species.values()} if (m.get("su")) else {}
+    zmax = max([abs(z) for z in surf_z.values()] + [1.0])
     site_sigma = 0.0
     for stg in (m, st2 or {}):
         su = stg.get("su")
@@ -498,7 +506,7 @@ def check_case(case, ctx):
                 e = 0.0
                 ns = [abs(v[i]) if isinstance(v[i], float) else 0.0 for v in (va, vb)]
                 ns[1] = ns[1] / row_ext if row_ext else ns[1]
-                if max(ns) < 1e-30:
+                if max(ns) == 0.0:
                     pass                         # the element is absent from both solutions: zeros compare as they are
                 elif min(ns) < 1e-30 and max(ns) > 1e-14 * max(kgw, 1e-30):
                     pass                         # present in one view only: a real disagreement, compared strictly
@@ -518,6 +526,43 @@ def check_case(case, ctx):
                 eps_of[o[3][0]] = e
                 if state != "i_soln":
                     carry_next[o[3][0]] = max(carry_next.get(o[3][0], 0.0), e)
+        # Surface (model.cpp residuals()):
+        #  * SURFACE_CB with an explicit diffuse layer (-donnan / -diffuse_layer): residual = sum of surface + diffuse-layer
+        #    charge in eq, accepted below convergence_tolerance ABSOLUTE (1e-13 eq, whatever the size of the surface);
+        #    without diffuse-layer composition: residual in C/m2, accepted below 1e-13 C/m2 -> 1e-13 A g / F eq;
+        #  * SURFACE (site balance): accepted below min(ineq_tol = 1e-15 mol, 1 % of the sites), else 1e-13 x sites.
+        #  dq eq of unbalanced charge moves F psi / RT by u = dq / sum z_i^2 n_i (charged surface species) and each surface
+        #  species by |z_i| u; it moves at most dq mol of any element between surface and solution, and dq eq of protons.
+        ctxv["surf_rel"] = ctxv["u_psi"] = ctxv["dsigma"] = ctxv["dq"] = 0.0
+        su = m.get("su") if sim == 1 else None
+        if su and state in ("i_surf", "react") and su["edl"] != "-no_edl":
+            fB = info["ext"] if fam == "W" else 1.0
+            u = dqmax = dsig = rsite = 0.0
+            for v, fv, kg in ((va, 1.0, kgw), (vb, fB, kgwb)):
+                area_g = su["sites"][0]["area"] * su["sites"][0]["grams"] * fv
+                dq = 1e-13 if su["edl"] in ("-donnan", "-diffuse_layer") else 1e-13 * area_g / 96485.0
+                z2n = sum(surf_z[o[0]] ** 2 * abs(v[i]) for i, o in enumerate(obs)
+                          if o[0] in surf_z and isinstance(v[i], float)) * max(kg, 0.0)
+                # the two views may err in opposite directions: the bounds add
+                u += dq / z2n if z2n > 0 else 1.0
+                dqmax += dq / fv
+                dsig += dq * 96485.0 / area_g
+                for st_ in su["sites"]:
+                    nsite = st_["moles"] * fv
+                    rsite += max(min(1e-15, 0.01 * nsite) / nsite, 1e-13) / len(su["sites"])
+                if state == "react":
+                    for e_ in list(eps_of):
+                        i_ = [j for j, o in enumerate(obs) if o[0] == 'TOTMOLE("%s")' % e_]
+                        n_ = abs(v[i_[0]]) if i_ and isinstance(v[i_[0]], float) else 0.0
+                        if n_ > 0:
+                            eps_of[e_] = min(1.0, eps_of[e_] + dq / n_)
+                            carry_next[e_] = max(carry_next.get(e_, 0.0), eps_of[e_])
+            ctxv["u_psi"], ctxv["dq"], ctxv["dsigma"] = u, dqmax, dsig
+            ctxv["surf_u"], ctxv["surf_site"] = u, rsite
+            surf_dq_per_kgw = max(1e-13 / max(kgw, 1e-300), 1e-13 / max(kgwb, 1e-300)) if su["edl"] in ("-donnan", "-diffuse_layer") else dqmax / max(kmin, 1e-300)
+        else:
+            surf_dq_per_kgw = 0.0
+            ctxv["surf_u"] = ctxv["surf_site"] = 0.0
         ctxv["hoh"] = max(abs(va[ih]) if isinstance(va[ih], float) else 0.0, abs(va[ioh]) if isinstance(va[ioh], float) else 0.0)
         icb = [i for i, o in enumerate(obs) if o[0] == "CHARGE_BALANCE"][0]
         S = 2.0 * mu + (abs(va[icb]) / kgw if isinstance(va[icb], float) and kgw > 0 else 0.0)
@@ -527,6 +572,8 @@ def check_case(case, ctx):
         if ph_free and isinstance(va[ih], float) and isinstance(va[ioh], float):
             bcap = max(abs(va[ih]), abs(va[ioh]), 1e-30)          # buffer capacity >= 2.3 max([H+],[OH-])
             noise = 15.0 * math.sqrt(S * 1e-25 / kmin)              # eq/kgw, margin 5 on 3 sqrt(S kgw 1e-25) / kgw
+            if state == "react":
+                noise += surf_dq_per_kgw                                # protons released / taken up with the unbalanced charge
             ctxv["tol_pH"] = REL + noise / (2.302585 * bcap)
             # the accepted pH difference of this row is a nuisance parameter of every pH-dependent result
             if isinstance(va[0], float) and isinstance(vb[0], float):
@@ -539,7 +586,7 @@ def check_case(case, ctx):
         if ipsi and isinstance(va[ipsi[0]], float) and isinstance(vb[ipsi[0]], float) and state != "i_soln":
             # the accepted difference of the surface potential is a nuisance parameter of the surface speciation
             dpsi = abs(va[ipsi[0]] - vb[ipsi[0]])
-            tolpsi = (REL + 28.0 * ctxv["nu"]) * max(abs(va[ipsi[0]]), abs(vb[ipsi[0]]), 0.0257)
+            tolpsi = (REL + 28.0 * ctxv["nu"]) * max(abs(va[ipsi[0]]), abs(vb[ipsi[0]]), 0.0257) + 0.0257 * ctxv["u_psi"]
             ctxv["nu_psi"] = 4.0 * 38.92 * min(dpsi, tolpsi)
         for i, (expr, kind, poised_only, oels) in enumerate(obs):
             if info["bitwise"]:
@@ -551,7 +598,14 @@ def check_case(case, ctx):
             if poised_only and not poised:
                 continue
             ctxv["eps_el"] = 3.0 * sum(eps_of.get(e, 0.0) for e in oels)
-            if ctxv["eps_el"] >= 0.1:
+            ctxv["surf_rel"] = (zmax * ctxv["surf_u"] + ctxv["surf_site"]) if expr in surf_z else 0.0
+            ctxv["log_floor"] = 1.0
+            if expr.startswith('LA("') and i > 0 and obs[i - 1][0] == 'MOL("' + expr[4:]:
+                mm = min(abs(va[i - 1]), abs(vb[i - 1])) if isinstance(va[i - 1], float) and isinstance(vb[i - 1], float) else 0.0
+                if mm < 1e-12:
+                    ctxv["log_floor"] = 1e-12 / max(mm, 1e-300)
+                    la_floor += 1
+            if ctxv["eps_el"] + ctxv["surf_rel"] >= 0.1:
                 # the amount of this element in solution is below what the solver's mass-balance criterion resolves
                 skipped_noise += 1
                 continue
@@ -595,6 +649,9 @@ def check_case(case, ctx):
         classes.append("dev<=1e%d_tol" % max(-8, min(0, int(math.ceil(math.log10(worst))))))
     if skipped_noise:
         classes.append("values_below_solver_resolution_skipped")
+        ctx.event("n_values_below_solver_resolution_skipped", skipped_noise)
+    if la_floor:
+        ctx.event("n_log_activities_below_molality_floor", la_floor)
     uu = units_used(m, specA) | units_used(m, specB)
     differ = tA != tB
     nt = differ and n_constituents(m) >= 3
